@@ -12,7 +12,7 @@ _ROOTS = {"RootMirrors", "LeafValue", "RootByHash", "LastProcessedBlock", "Fault
 OWNERS = {
     "C01": _ROOTS,
     "C11": _ROOTS,
-    "C08": {"ProofFolds"},
+    "C08": {"ProofFolds", "ProofUnderReadFault"},
     "C14": {"StopWhileHalted", "GuardWhileHalted", "UnhaltOnlyByReorg"},
     "C04": None,   # None = every predicate (state after a reorg must equal the never-seen state in every respect)
     "C07": None,
@@ -151,7 +151,8 @@ def store_check(prop, model_cfgs, gen_cfgs, quick_n, thorough_n, kinds_note, inv
         else:
             behs = rb
         drv = V.build_driver("store")
-        tf, index = run_driver_parallel(drv, behs, sc)
+        # C08 also asks for proofs while one read of the query fails (an error or the right proof, never another proof)
+        tf, index = run_driver_parallel(drv, behs, sc, extra_args=(["-readfaultqueries", "3"] if prop == "C08" else []))
         info = V.validate_traces("StoreTrace.tla", "StoreTrace.cfg", tf, sc, timeout=3000, heap="16g")
         if not info["consumed_ok"]:
             raise V.Infra("monitor did not consume the trace:\n" + info.get("tail", ""))
